@@ -1,0 +1,24 @@
+//go:build verif
+
+// Contracts for the deductive verifier in /verif (govc). Comment-only file,
+// compiled only with -tags verif.
+
+package main
+
+// ---------------------------------------------------------------------------
+// C35: merge reports success only if every step succeeded
+// ---------------------------------------------------------------------------
+
+// effectFailed (ghost, declared with the os contracts) is set by every
+// fallible external step that returns an error: os.Open, index.NewIndexFile,
+// index.Merge, index.IndexFilePaths, os.Remove, os.Rename. merge may return a
+// nil error only if none of them failed: it cannot swallow or overwrite one.
+//@ func main.merge
+//@   requires !effectFailed
+//@   loop 1:
+//@     invariant !effectFailed
+//@   loop 2:
+//@     invariant !effectFailed
+//@   loop 3:
+//@     invariant !effectFailed
+//@   ensures result1 == nil ==> !effectFailed
